@@ -32,7 +32,7 @@ type pathLexer struct {
 	i int
 }
 
-func isWsp(c byte) bool { return c == ' ' || c == '\t' || c == '\n' || c == '\r' }
+func isWsp(c byte) bool   { return c == ' ' || c == '\t' || c == '\n' || c == '\r' }
 func isDigit(c byte) bool { return c >= '0' && c <= '9' }
 
 func (l *pathLexer) wsp() {
@@ -304,7 +304,9 @@ var coordNames = map[byte][]string{
 
 // lineLike: a line, or an exactly degenerate curve (both control points on end points),
 // which the property allows to be written as a line.
-func (t tolr) lineLike(s seg) bool { return s.k == 'L' || (s.k == 'C' || s.k == 'Q') && t.degenerate(s) }
+func (t tolr) lineLike(s seg) bool {
+	return s.k == 'L' || (s.k == 'C' || s.k == 'Q') && t.degenerate(s)
+}
 
 // match: same segment within tolerance. "" = match, otherwise what differs.
 func (t tolr) match(x, y seg) string {
@@ -414,7 +416,7 @@ func descSeg(s seg) string {
 // shapes of known defects, recognised on the INPUT
 
 var (
-	reZThenNonM   = regexp.MustCompile(`[Zz][\s,]*[^MmZz\s,]`)
+	reZThenNonM = regexp.MustCompile(`[Zz][\s,]*[^MmZz\s,]`)
 )
 
 func smoothFamily(src byte) byte {
